@@ -3,11 +3,10 @@ import Mamba.Lemmas.CanonFCert
 # `expandValue` maintains the certificate invariant (`ExpandCert`, `ExpandStale` of `CanonFCert.lean`)
 
 * `append_spec`, `sortRange_spec` — `Sl.append` appends, `Sl.sortRange a len` sorts exactly the tail;
-* `compare_append`, `worseTest_ok`, `worseTest_mono` — "worse" is inherited by every extension of the certificate;
 * `codeLoop_spec`, `code_fun` — the inner loop appends `rawCodes`;
 * `expandLoop_step` — one iteration of `expandLoop`; `expandLoop_cert` — the loop invariant
   `value.toList = certPos nb order j`;
-* `expandValue_cert`, `expandValue_stale`.
+* `expandValue_cert` (on "worse" the loop records `spl := j' + 1`, so `value` is again the certificate of the prefix).
 -/
 namespace CanonF
 
@@ -69,114 +68,6 @@ theorem sortRange_spec {s s' : Sl Nat} {a : Nat} (hw : s.WF) (ha : a ≤ s.len)
 
 
 
-theorem compare_append : ∀ (a b x y : List Nat), a.length = b.length → compare a b ≠ 0 →
-    compare (a ++ x) (b ++ y) = compare a b := by
-  intro a
-  induction a with
-  | nil =>
-    intro b x y hl hc
-    cases b with
-    | nil => simp [compare] at hc
-    | cons _ _ => simp at hl
-  | cons p as ih =>
-    intro b x y hl hc
-    cases b with
-    | nil => simp at hl
-    | cons q bs =>
-      simp only [List.cons_append, compare] at hc ⊢
-      by_cases h1 : p > q
-      · simp [h1]
-      · by_cases h2 : p < q
-        · simp [h1, h2]
-        · simp only [h1, h2, if_false] at hc ⊢
-          exact ih bs x y (by simpa using hl) hc
-
-/-- what a successful `worseTest` computed -/
-theorem worseTest_ok {value cb fl : Sl Nat} {b : Bool} (h : worseTest value cb fl = .ok b) :
-    (b = true → 0 < cb.len) ∧ (0 < cb.len → value.len ≤ cb.data.size ∧
-      (compare value.toList (cb.data.toList.take value.len) = -1 →
-        value.len ≤ fl.data.size ∧ b = (compare value.toList (fl.data.toList.take value.len) != 0)) ∧
-      (compare value.toList (cb.data.toList.take value.len) ≠ -1 → b = false)) := by
-  unfold worseTest at h
-  by_cases h0 : cb.len > 0
-  · rw [if_pos h0] at h
-    refine ⟨fun _ => h0, fun _ => ?_⟩
-    cases h1 : cb.reslice value.len with
-    | ok cb' =>
-      rw [h1] at h
-      obtain ⟨g1, rfl⟩ := Sl.reslice_eq_ok.1 h1
-      simp only at h
-      refine ⟨g1, ?_, ?_⟩
-      · intro hc
-        have hc' : compare value.toList (Sl.toList ⟨cb.data, value.len⟩) = -1 := hc
-        rw [if_pos (by rw [hc']; rfl)] at h
-        cases h2 : fl.reslice value.len with
-        | ok fl' =>
-          rw [h2] at h
-          obtain ⟨g2, rfl⟩ := Sl.reslice_eq_ok.1 h2
-          simp only at h
-          cases h
-          exact ⟨g2, rfl⟩
-        | panic => rw [h2] at h; cases h
-        | outOfFuel => rw [h2] at h; cases h
-      · intro hc
-        have hc' : compare value.toList (Sl.toList ⟨cb.data, value.len⟩) ≠ -1 := hc
-        rw [if_neg (by simpa using hc')] at h
-        cases h
-        rfl
-    | panic => rw [h1] at h; cases h
-    | outOfFuel => rw [h1] at h; cases h
-  · rw [if_neg h0] at h
-    cases h
-    exact ⟨by simp, fun h => absurd h h0⟩
-
-/-- `worseTest_mono` without the (unnecessary) well-formedness of the extension -/
-theorem worseTest_mono' {value v' cb fl : Sl Nat} (hw : value.WF)
-    (h : worseTest value cb fl = .ok true) (hpre : ∃ t, v'.toList = value.toList ++ t)
-    (b : Bool) (h' : worseTest v' cb fl = .ok b) : b = true := by
-  obtain ⟨t, ht⟩ := hpre
-  obtain ⟨a1, a2⟩ := worseTest_ok h
-  have hpos := a1 rfl
-  obtain ⟨a3, a4, a5⟩ := a2 hpos
-  have hcmp : compare value.toList (cb.data.toList.take value.len) = -1 := by
-    by_cases hc : compare value.toList (cb.data.toList.take value.len) = -1
-    · exact hc
-    · exact absurd (a5 hc) (by simp)
-  obtain ⟨a6, a7⟩ := a4 hcmp
-  have hne : compare value.toList (fl.data.toList.take value.len) ≠ 0 := by
-    simpa using a7.symm
-  obtain ⟨_, b2⟩ := worseTest_ok h'
-  obtain ⟨b3, b4, b5⟩ := b2 hpos
-  have hlen : value.toList.length = value.len := Sl.length_toList _ hw
-  -- `v'.len ≥ value.len`
-  have hge : value.len ≤ v'.len := by
-    have h1 : v'.toList.length ≤ v'.len := by simp [Sl.toList]; omega
-    rw [ht] at h1; simp at h1; omega
-  obtain ⟨d, hd⟩ : ∃ d, v'.len = value.len + d := ⟨v'.len - value.len, by omega⟩
-  have e1 : compare v'.toList (cb.data.toList.take v'.len) = -1 := by
-    rw [ht, hd, List.take_add, compare_append _ _ _ _ (by rw [hlen]; simp; omega) (by rw [hcmp]; decide), hcmp]
-  obtain ⟨b6, b7⟩ := b4 e1
-  have e2 : compare v'.toList (fl.data.toList.take v'.len) = compare value.toList (fl.data.toList.take value.len) := by
-    rw [ht, hd, List.take_add, compare_append _ _ _ _ (by rw [hlen]; simp; omega) hne]
-  rw [b7, e2]
-  simpa using hne
-
-
-/-- once `worseTest` says "worse", it says so for every extension of the certificate -/
-theorem worseTest_mono {value v' cb fl : Sl Nat} (hw : value.WF) (hw' : v'.WF)
-    (h : worseTest value cb fl = .ok true) (hpre : ∃ t, v'.toList = value.toList ++ t)
-    (b : Bool) (h' : worseTest v' cb fl = .ok b) : b = true :=
-  have _ := hw'
-  worseTest_mono' hw h hpre b h'
-
-theorem poisoned_of_worse {value cb fl : Sl Nat} (hw : value.WF) (h : worseTest value cb fl = .ok true) :
-    Poisoned cb fl value :=
-  fun _ hpre b h' => worseTest_mono' hw h hpre b h'
-
-theorem Poisoned.ext {value v2 cb fl : Sl Nat} (h : Poisoned cb fl value) (t : List Nat)
-    (ht : v2.toList = value.toList ++ t) : Poisoned cb fl v2 := by
-  intro v' ⟨t', ht'⟩ b hb
-  exact h v' ⟨t ++ t', by rw [ht', ht, List.append_assoc]⟩ b hb
 /-! ## the certificate as a list -/
 
 theorem tri_mono {s t : Nat} (h : s ≤ t) : tri s ≤ tri t := by
@@ -285,7 +176,7 @@ theorem expandLoop_step {n : Nat} {nb : Nbrs} {cb fl : Sl Nat} {k j : Nat} {op o
     (op.binDividers.toList[j]? ≠ some (j + 1) ∧ j < op.binDividers.len ∧ w = false ∧ op' = { op with spl := j }) ∨
     (op.binDividers.toList[j]? = some (j + 1) ∧ ∃ value2 : Sl Nat, value2.WF ∧
       value2.toList = op.value.toList ++ blockCodes nb op.order.toList j ∧
-      ((worseTest value2 cb fl = .ok true ∧ w = true ∧ op' = { op with value := value2 }) ∨
+      ((worseTest value2 cb fl = .ok true ∧ w = true ∧ op' = { op with value := value2, spl := j + 1 }) ∨
        (worseTest value2 cb fl = .ok false ∧
          expandLoop nb cb fl k (j + 1) { op with value := value2 } = .ok (w, op')))) := by
   rw [expandLoop] at h
@@ -380,8 +271,10 @@ theorem expandLoop_cert {n : Nat} {nb : Nbrs} {cb fl : Sl Nat} :
       op.value.toList = certPos nb op.order.toList j →
       expandLoop nb cb fl k j op = .ok (w, op') →
       (w = false → CleanPrefix op' ∧ op'.value.WF ∧ op'.value.toList = certPos nb op'.order.toList op'.spl) ∧
-      (w = true → op'.spl = op.spl ∧ op'.value.WF ∧
-        ∃ j', j ≤ j' ∧ op'.value.toList = certPos nb op.order.toList (j' + 1) ∧
+      (w = true → op'.value.WF ∧
+        ∃ j', j ≤ j' ∧ op'.spl = j' + 1 ∧ j' < op.binDividers.len ∧
+          (∀ t, t < j' + 1 → op.binDividers.toList[t]? = some (t + 1)) ∧
+          op'.value.toList = certPos nb op.order.toList (j' + 1) ∧
           worseTest op'.value cb fl = .ok true) := by
   intro k
   induction k with
@@ -409,22 +302,25 @@ theorem expandLoop_cert {n : Nat} {nb : Nbrs} {cb fl : Sl Nat} :
       rw [hlo]; exact hval
   | succ k ih =>
     intro j op w op' hjk inv hsing hwf hval h
+    have hbl : op.binDividers.toList.length = op.binDividers.len := Sl.length_toList _ inv.wfBd
     rcases expandLoop_step inv hsing hwf h with ⟨hns, hjlt, rfl, rfl⟩ | ⟨haj1, value2, w2, t2, hcase⟩
     · refine ⟨fun _ => ⟨⟨⟨Nat.le_of_lt hjlt, hsing⟩, hns⟩, hwf, hval⟩, fun hc => by cases hc⟩
     · have t2' : value2.toList = certPos nb op.order.toList (j + 1) := by
         rw [t2, hval, certPos_succ]
+      have hsing' : ∀ t, t < j + 1 → op.binDividers.toList[t]? = some (t + 1) := by
+        intro t ht
+        by_cases htj : t = j
+        · subst htj; exact haj1
+        · exact hsing t (by omega)
+      have hjlt : j < op.binDividers.len := by
+        have := (List.getElem?_eq_some_iff.1 haj1).1; omega
       rcases hcase with ⟨hwt, rfl, rfl⟩ | ⟨_, hrec⟩
-      · exact ⟨fun hc => (by cases hc), fun _ => ⟨rfl, w2, j, Nat.le_refl _, t2', hwt⟩⟩
-      · have hsing' : ∀ t, t < j + 1 → op.binDividers.toList[t]? = some (t + 1) := by
-          intro t ht
-          by_cases htj : t = j
-          · subst htj; exact haj1
-          · exact hsing t (by omega)
-        obtain ⟨r1, r2⟩ := ih (j + 1) { op with value := value2 } w op' (by omega)
+      · exact ⟨fun hc => (by cases hc), fun _ => ⟨w2, j, Nat.le_refl _, rfl, hjlt, hsing', t2', hwt⟩⟩
+      · obtain ⟨r1, r2⟩ := ih (j + 1) { op with value := value2 } w op' (by omega)
           (PartInv.of_frame inv rfl rfl rfl rfl) hsing' w2 t2' hrec
         refine ⟨r1, fun hw => ?_⟩
-        obtain ⟨s1, s2, j', s3, s4, s5⟩ := r2 hw
-        exact ⟨s1, s2, j', by omega, s4, s5⟩
+        obtain ⟨s2, j', s3, s4, s5, s6, s7, s8⟩ := r2 hw
+        exact ⟨s2, j', by omega, s4, s5, s6, s7, s8⟩
 
 theorem expandValue_cert : ExpandCert := by
   intro n nb cb fl op op' w inv hp hwf hval h
@@ -435,40 +331,10 @@ theorem expandValue_cert : ExpandCert := by
   refine ⟨fun hw => ?_, fun hw => ?_⟩
   · obtain ⟨a1, a2, a3⟩ := r1 hw
     exact ⟨a1, a2, a3⟩
-  · obtain ⟨s1, s2, j', s3, s4, s5⟩ := r2 hw
-    refine ⟨⟨⟨?_, ?_⟩, s2, ?_, poisoned_of_worse s2 s5, ?_⟩, s1⟩
-    · rw [s1, e2]; exact hp.le
-    · rw [s1, e2]; exact hp.single
-    · rw [s1, e1, s4]
-      exact certPos_split nb op.order.toList op.spl (j' + 1) (by omega)
-    · rw [s1, e1]
-      rcases Nat.lt_or_ge op.spl op.order.len with hlt | hge
-      · exact hlt
-      · exfalso
-        have h0 : op.order.len - op.spl = 0 := by omega
-        rw [h0] at h
-        simp [expandLoop] at h
-        rw [hw] at h; exact absurd h.1 (by simp)
-
-theorem expandValue_stale : ExpandStale := by
-  intro n nb cb fl op op' w inv hst hsingle h
-  unfold expandValue at h
-  have hlt : op.spl + 1 ≤ n := inv.bd_le _ _ hsingle
-  obtain ⟨k, hk⟩ : ∃ k, op.order.len - op.spl = k + 1 := ⟨op.order.len - op.spl - 1, by rw [inv.lenOrder]; omega⟩
-  rw [hk] at h
-  obtain ⟨extra, hval, hge⟩ := hst.val
-  rcases expandLoop_step inv hst.pre.single hst.wf h with ⟨hns, _⟩ | ⟨_, value2, w2, t2, hcase⟩
-  · exact absurd hsingle hns
-  · have hpois : Poisoned cb fl value2 := hst.poisoned.ext _ t2
-    rcases hcase with ⟨hwt, rfl, rfl⟩ | ⟨hwt, _⟩
-    · refine ⟨rfl, ⟨⟨hst.pre.le, hst.pre.single⟩, w2, ⟨extra ++ blockCodes nb op.order.toList op.spl, ?_, ?_⟩, hpois, hst.lt⟩, rfl⟩
-      · show value2.toList = _
-        rw [t2, hval, List.append_assoc]
-      · intro x hx
-        rcases List.mem_append.1 hx with hx | hx
-        · exact hge x hx
-        · exact blockCodes_ge hx
-    · have := hst.poisoned value2 ⟨_, t2⟩ false hwt
-      cases this
+  · obtain ⟨s2, j', s3, s4, s5, s6, s7, _⟩ := r2 hw
+    refine ⟨⟨⟨?_, ?_⟩, s2, ?_⟩, by omega⟩
+    · rw [s4, e2]; omega
+    · rw [s4, e2]; exact s6
+    · rw [s4, e1]; exact s7
 
 end CanonF
